@@ -23,7 +23,12 @@ Pool == << R(<<"1.1.1.1">>, "", "", "", "host", "replace", <<>>),               
            R(<<"2.2.2.2">>, "", "", "", "srflx", "", <<>>),                       \* 13 srflx global, default mode (append)
            R(<<"1.1.1.1">>, "10.0.0.5", "e0", "10.0.0.0/8", "relay", "replace", <<>>), \* 14 relay, local pinned inside iface+CIDR scope
            R(<<"2.2.2.2">>, "", "", "fd00::/8", "host", "replace", <<>>),         \* 15 v4 external scoped to a v6 CIDR (family implied by CIDR)
-           R(<<>>, "192.168.1.5", "", "", "host", "replace", <<"udp4">>) >>       \* 16 explicit local drop
+           R(<<>>, "192.168.1.5", "", "", "host", "replace", <<"udp4">>),         \* 16 explicit local drop
+           \* a network restriction is about the family of the local scope (Local / CIDR), not of the external address:
+           R(<<"2001::1">>, "10.0.0.5", "", "", "host", "replace", <<"udp4">>),   \* 17 explicit v4 local, v6 external, v4 networks: applies
+           R(<<"2001::2">>, "10.0.0.5", "", "", "host", "replace", <<"udp6">>),   \* 18 ... v6 networks: applies to nothing
+           R(<<"2.2.2.2">>, "", "", "fd00::/8", "host", "replace", <<"udp6">>),   \* 19 v4 external scoped to a v6 CIDR, v6 networks: applies
+           R(<<"1.1.1.1">>, "", "", "fd00::/8", "host", "replace", <<"tcp4">>) >> \* 20 ... v4 networks: applies to nothing
 \* rules that must be refused at construction
 Bad == << R(<<"bad">>, "", "", "", "host", "replace", <<>>),
           R(<<"1.1.1.1/24">>, "", "", "", "host", "replace", <<>>),
